@@ -354,6 +354,145 @@ Fixpoint html_run (full : bool) (st : hstate) (d : doc) : option (list hev) :=
 Definition render_html_events (full : bool) (d : doc) : option (list hev) := html_run full hs_init d.
 Definition render_html (full : bool) (d : doc) : option bytes := option_map html_bytes (render_html_events full d).
 
+(* ================================================================== Doc::render_markdown *)
+(* src/buffer/html.rs render_markdown.  The output is kept reversed so that `ends_with` is a look at its head. *)
+Record mstate := mkMS {
+  ms_out : bytes;          (* reversed *)
+  ms_cur : styles;
+  ms_skip : nat;
+  ms_empty_term : bool;
+  ms_mono : Z;             (* i32: BlockEnd(Mono) without a start makes it negative *)
+  ms_deflist : bool;
+  ms_code : bool;
+  ms_app : bool }.
+Definition ms_init : mstate := mkMS [] st_default O false 0%Z false false false.
+
+Definition ms_push (st : mstate) (s : bytes) : mstate :=
+  mkMS (rev s ++ ms_out st) (ms_cur st) (ms_skip st) (ms_empty_term st) (ms_mono st) (ms_deflist st) (ms_code st) (ms_app st).
+Definition ms_set_out (st : mstate) (o : bytes) : mstate :=
+  mkMS o (ms_cur st) (ms_skip st) (ms_empty_term st) (ms_mono st) (ms_deflist st) (ms_code st) (ms_app st).
+Definition ms_set_cur (st : mstate) (c : styles) : mstate :=
+  mkMS (ms_out st) c (ms_skip st) (ms_empty_term st) (ms_mono st) (ms_deflist st) (ms_code st) (ms_app st).
+Definition ms_set_skip (st : mstate) (k : nat) : mstate :=
+  mkMS (ms_out st) (ms_cur st) k (ms_empty_term st) (ms_mono st) (ms_deflist st) (ms_code st) (ms_app st).
+Definition ms_set_eterm (st : mstate) (b : bool) : mstate :=
+  mkMS (ms_out st) (ms_cur st) (ms_skip st) b (ms_mono st) (ms_deflist st) (ms_code st) (ms_app st).
+Definition ms_set_mono (st : mstate) (z : Z) : mstate :=
+  mkMS (ms_out st) (ms_cur st) (ms_skip st) (ms_empty_term st) z (ms_deflist st) (ms_code st) (ms_app st).
+Definition ms_set_deflist (st : mstate) (b : bool) : mstate :=
+  mkMS (ms_out st) (ms_cur st) (ms_skip st) (ms_empty_term st) (ms_mono st) b (ms_code st) (ms_app st).
+Definition ms_set_code (st : mstate) (b : bool) : mstate :=
+  mkMS (ms_out st) (ms_cur st) (ms_skip st) (ms_empty_term st) (ms_mono st) (ms_deflist st) b (ms_app st).
+Definition ms_set_app (st : mstate) (b : bool) : mstate :=
+  mkMS (ms_out st) (ms_cur st) (ms_skip st) (ms_empty_term st) (ms_mono st) (ms_deflist st) (ms_code st) b.
+
+(* change_to_markdown_style *)
+Definition md_style_str (cur new : styles) : bytes :=
+  (if st_mono cur then [96%N] else []) ++ (if st_bold cur then [42; 42]%N else []) ++ (if st_italic cur then [95%N] else []) ++
+  (if st_italic new then [95%N] else []) ++ (if st_bold new then [42; 42]%N else []) ++ (if st_mono new then [96%N] else []).
+Definition md_style (st : mstate) (new : styles) : mstate :=
+  ms_set_cur (ms_push st (md_style_str (ms_cur st) new)) new.
+
+(* new_markdown_line / blank_markdown_line *)
+Definition md_new_line (st : mstate) : mstate :=
+  match ms_out st with
+  | [] => st
+  | c :: _ => if (c =? 10)%N then st else ms_push st [10%N]
+  end.
+Definition md_blank_line (st : mstate) : mstate :=
+  match ms_out st with
+  | [] => st
+  | a :: b :: _ => if (a =? 10)%N && (b =? 10)%N then st else ms_push st [10; 10]%N
+  | _ => ms_push st [10; 10]%N
+  end.
+
+Definition k_md_code_open : bytes := [10; 10; 32; 32; 96; 96; 96; 116; 101; 120; 116; 10]%N.   (* "\n\n  ```text\n" *)
+Definition k_md_code_close_nl : bytes := [10; 32; 32; 96; 96; 96; 10]%N.                      (* "\n  ```\n" *)
+Definition k_md_code_close : bytes := [32; 32; 96; 96; 96; 10]%N.                             (* "  ```\n" *)
+Definition k_md_mdash : bytes := [32; 38; 109; 100; 97; 115; 104; 59; 32]%N.                  (* " &mdash; " *)
+
+Definition md_escape_brackets (s : bytes) : bytes :=
+  flat_map (fun c => if (c =? 91)%N then [92; 91]%N else if (c =? 93)%N then [92; 93]%N else [c]) s.
+
+(* the chunks of one text token; returns the state and whether Skip was enabled (the loop was left) *)
+Fixpoint md_chunks (full : bool) (cs : list chunk) (st : mstate) : mstate * bool :=
+  match cs with
+  | [] => (st, false)
+  | CRaw s w :: t =>
+    if (w =? W_TICKED)%N then
+      md_chunks full t (ms_push (ms_push (ms_push (md_new_line st) [32; 32]%N) s) [10%N])
+    else if (w =? W_CODE)%N then
+      let st1 := if ms_code st then st else ms_push st k_md_code_open in
+      md_chunks full t (ms_push (ms_push (ms_push (ms_set_code st1 true) [32; 32]%N) s) [10%N])
+    else
+      let st1 := if ms_code st then ms_set_code (ms_push st k_md_code_close_nl) false else st in
+      md_chunks full t (ms_push st1 (if Z.ltb 0 (ms_mono st1) then md_escape_brackets s else s))
+  | CPara :: t =>
+    if full then
+      let st1 := ms_push st [10; 10]%N in
+      md_chunks full t (if ms_deflist st then ms_push st1 [32; 32]%N else st1)
+    else (st, true)
+  | CBreak :: t => md_chunks full t (ms_push st [10%N])
+  end.
+
+(* one token (`next`: the token after it, for the empty-term test); None = todo!() (Block::Meta) *)
+Definition md_step (full : bool) (st : mstate) (t : dtoken) (next : option dtoken) : option mstate :=
+  match t with
+  | TText sty s =>
+    if Nat.ltb O (ms_skip st) then Some st
+    else
+      let st1 := md_style st (styles_of sty) in
+      let '(st2, k) := md_chunks full (split true s) st1 in
+      let st3 := if k then ms_set_skip st2 1 else st2 in
+      Some (if ms_code st3 then ms_set_code (ms_push st3 k_md_code_close) false else st3)
+  | TStart b =>
+    let st1 := md_style st st_default in
+    match b with
+    | BMeta => None
+    | BHeader =>
+      let st2 := md_blank_line st1 in
+      Some (if ms_app st2 then ms_push st2 [35; 35; 32]%N else ms_set_app (ms_push st2 [35; 32]%N) true)
+    | BSection2 => Some st1
+    | BItemTerm =>
+      let st2 := md_new_line st1 in
+      let e := match next with Some (TEnd BItemTerm) => true | _ => false end in
+      Some (ms_push (ms_set_eterm st2 e) (if e then [32; 32]%N else [45; 32]%N))
+    | BItemBody =>
+      let st2 := if ms_deflist st1 then ms_push st1 (if ms_empty_term st1 then [32%N] else k_md_mdash) else st1 in
+      Some (ms_push (md_new_line st2) [32; 32]%N)
+    | BDefinitionList => Some (ms_set_deflist st1 true)
+    | BBlock => Some (ms_push st1 [10%N])
+    | BMono => Some (ms_set_mono st1 (ms_mono st1 + 1)%Z)
+    | BSection3 => Some (ms_push st1 [35; 35; 35; 32]%N)
+    | BTermRef => Some st1
+    | BInlineBlock => Some (if Nat.ltb O (ms_skip st1) then ms_set_skip st1 (S (ms_skip st1)) else st1)
+    end
+  | TEnd b =>
+    let st1 := md_style st st_default in
+    match b with
+    | BMeta => None
+    | BHeader | BBlock | BSection3 | BSection2 => Some (ms_push st1 [10%N])
+    | BInlineBlock => Some (ms_set_skip st1 (Nat.pred (ms_skip st1)))
+    | BItemTerm | BTermRef => Some st1
+    | BItemBody => Some (if ms_deflist st1 then ms_push st1 [10%N] else st1)
+    | BDefinitionList => Some (ms_push (ms_set_deflist st1 false) [10%N])
+    | BMono => Some (ms_set_mono st1 (ms_mono st1 - 1)%Z)
+    end
+  end.
+
+Fixpoint md_run (full : bool) (st : mstate) (d : doc) : option mstate :=
+  match d with
+  | [] => Some (md_style st st_default)
+  | t :: d' =>
+    match md_step full st t (hd_error d') with
+    | None => None
+    | Some st' => md_run full st' d'
+    end
+  end.
+
+Definition render_markdown (full : bool) (d : doc) : option bytes :=
+  option_map (fun st => rev (ms_out st)) (md_run full ms_init d).
+
 (* ================================================================== roff *)
 Inductive esc := EUnescNl | ESpaces | ESpecial | ESpecialNoNl | EUnesc.
 Definition esc_eqb (a b : esc) : bool :=
